@@ -10,7 +10,7 @@ namespace Driver.C12
 open ThermoVerif.Phases Driver
 
 structure St where
-  w : World := World.init
+  w : World := World.init 3
 
 def parsePh : String → Option Ph
   | "L" => some .L | "S" => some .S | "g" => some .g | "l" => some .l | "s" => some .s | _ => none
@@ -104,6 +104,12 @@ def parseOp (w : World) (line : String) : Option Op :=
   | ["wvT", h, x] => do some (.wvT (← h.toNat?) (← parseRat? x))
   | ["wvP", h, x] => do some (.wvP (← h.toNat?) (← parseRat? x))
   | ["vphase", h, p] => do some (.vPhase (← h.toNat?) (← parsePh p))
+  | ["hphases", h, ps] => do
+    let ps ← parsePhs ps
+    if ps.isEmpty then none else some (.hPhases (← h.toNat?) ps)
+  | ["hvle", h] => do some (.hAccessor (← h.toNat?))
+  | ["hlle", h] => do some (.hAccessor (← h.toNat?))
+  | ["hsle", h] => do some (.hAccessor (← h.toNat?))
   | ["save", k] => do some (.save (← k.toNat?))
   | ["restore", k, idx] => do some (.restore (← k.toNat?) (← idx.toNat?))
   | ["unlink", k] => do some (.unlink (← k.toNat?))
@@ -119,7 +125,18 @@ def step (st : St) (line : String) : St × String :=
   match splitWs line with
   | ["chems", n] =>
     match n.toNat? with
-    | some n => if st.w.nStr == 0 && 2 ≤ n && n ≤ 4 then ({ w := { st.w with n := n } }, s!"chems={n}") else (st, "bad-op")
+    | some n => if st.w.nStr == 0 && 2 ≤ n && n ≤ 4 then ({ w := World.init n }, s!"chems={n}") else (st, "bad-op")
+    | none => (st, "bad-op")
+  | ["iter", k] =>
+    -- `list(stream)`: `MultiStream.__iter__` asks for the view of every phase in order; a `Stream` yields itself
+    match k.toNat? with
+    | some k =>
+      if k < st.w.nStr then
+        let w' := if (st.w.str k).multi then
+            (st.w.phases k).foldl (fun w p => w.apply (.view k p)) st.w
+          else st.w
+        ({ w := w' }, showState w')
+      else (st, "err=IndexError " ++ showState st.w)
     | none => (st, "bad-op")
   | _ =>
   match parseOp st.w line with
